@@ -60,7 +60,10 @@ structure FileF where
   trailingNL : Bool
 
 /-- Python `int(tok)` for the tokens the loaders convert (optional sign, digits; surrounding blanks allowed) -/
-def pyInt? (s : String) : Option Int := s.trimAscii.toString.toInt?
+def pyInt? (s : String) : Option Int :=
+  let t := s.trimAscii.toString
+  -- `int("+3") == 3` (Lean's `toInt?` knows no leading plus sign)
+  if t.startsWith "+" then (t.drop 1).toString.toNat?.map Int.ofNat else t.toInt?
 
 /-! ### results -/
 
@@ -116,11 +119,12 @@ def oscarFormat (first : LineF) : Except Err (Fmt × List String) :=
   let l := first.toks
   let t0 := l.getD 0 ""
   let t1 := l.getD 1 ""
-  if l.length == 15 || t0 == "#!OSCAR2013" then .ok (.oscar2013, [])
+  -- the `#!ASCII` tag is tested first (proposed_fixes/C01-1): an ASCII header with 13 or 21 columns has 15 / 23 tokens
+  if t0 == "#!ASCII" then .ok (.ascii, customAttrList (l.drop 2))
+  else if l.length == 15 || t0 == "#!OSCAR2013" then .ok (.oscar2013, [])
   else if t0 == "#!OSCAR2013Extended" && t1 == "SMASH_IC" then .ok (.extendedIC, [])
   else if t0 == "#!OSCAR2013Extended" && t1 == "Photons" then .ok (.extendedPhotons, [])
   else if l.length == 23 || t0 == "#!OSCAR2013Extended" then .ok (.extended, [])
-  else if t0 == "#!ASCII" then .ok (.ascii, customAttrList (l.drop 2))
   else .error .type
 
 /-- the line `set_num_events` / `get_last_line` read: the text after the last newline that is not the
